@@ -85,6 +85,8 @@ func newAccessEnv() *accessEnv {
 	e.f.Get("/a/{v: **}", h)
 	e.f.Get("/set", h)
 	e.f.Get("/get", h)
+	// a route that is only ever walked INTO: `/{w}/zz/…` requests end in not-found after `w` was captured
+	e.f.Get("/{w}/zz/yy", h)
 	return e
 }
 
@@ -266,8 +268,18 @@ func execAccess(args []string, lines [][]string) []string {
 				if l[2] == "p" {
 					prefix = "/p/"
 				}
+				// history: a request that captured `w` on its way to not-found comes first; the parameter map of THIS
+				// request must not know `w` (an absent bind parameter reads as the zero value)
+				e.f.ServeHTTP(httptest.NewRecorder(), httptest.NewRequest("GET", "/4711/zz/nowhere", nil))
 				req := httptest.NewRequest("GET", prefix+url.PathEscape(unhx(l[3])), nil)
-				out, _, ok := e.serve(req, paramOp(l[1], unhx(l[4])))
+				inner := paramOp(l[1], unhx(l[4]))
+				out, _, ok := e.serve(req, func(c flamego.Context) string {
+					leak := ""
+					if c.Param("w") != "" || c.ParamInt("w") != 0 || len(c.Params()) > 2 {
+						leak = " leak"
+					}
+					return inner(c) + leak
+				})
 				if !ok {
 					out = "nomatch"
 				}
